@@ -141,6 +141,9 @@ impl<'a> G<'a> {
         // block or single statement
         if self.r.chance(2, 3) {
             self.block()
+        } else if self.r.chance(1, 6) {
+            // a single-statement body that translates to no statement of its own
+            self.r.pick(&[";", "gphase();", "@in_body note\n", "OPENQASM 3.0;", "include \"nested.inc\";", "pragma in body\n", "while (false) ;"]).to_string()
         } else {
             self.depth += 1;
             let s = self.stmt_no_decl();
